@@ -67,7 +67,8 @@ def world(debug_logging=False):
 
 def run(main_factory, *, debug_logging=False, loop_debug=False):
     """Run `await main_factory(loop, net, log)` in a fresh virtual world.
-    Returns (result, log, status) where status is 'ok' | 'quiescent'."""
+    Returns (result, log, status) where status is 'ok' | 'quiescent' (deterministic hang) |
+    'livelock' (a task spins at one virtual instant)."""
     loop, net, log = world(debug_logging)
     if loop_debug:
         loop.set_debug(True)
@@ -79,6 +80,9 @@ def run(main_factory, *, debug_logging=False, loop_debug=False):
         except simloop.Quiescent:
             status = "quiescent"
             log.add("HARNESS.quiescent")
+        except simloop.Livelock as e:
+            status = "livelock"
+            log.add("HARNESS.livelock", what=str(e))
     finally:
         _CAPTURE.log = None
         simloop.close_world(loop)
